@@ -7,7 +7,8 @@
    cexp is the complex exponential, used only through exp(a+b) = exp a exp b, exp 0 = 1.
    That mode k of the rfft layout carries exp(i kappa_k . x) on the grid is C04. *)
 From Coq Require Import ZArith QArith List Bool Lia.
-From EXV Require Import Base.Scalar Base.FieldLemmas Spectral.Symbols Spectral.LinOp Steppers.Linear Steppers.LinearProofs Gen.ETDRK.
+From EXV Require Import Base.Scalar Base.FieldLemmas Spectral.Symbols Spectral.LinOp Steppers.Linear Steppers.LinearProofs Gen.ETDRK
+  Gen.LinOps Tie.LinOpsTie.
 Import ListNotations.
 Local Open Scope fld_scope.
 Ltac splits := repeat match goal with |- _ /\ _ => split end.
@@ -72,6 +73,76 @@ Proof.
   - intros Hr H1 H2. apply wave_exact_dc; assumption.
 Qed.
 Print Assumptions C01_wave_exact.
+
+(* (i') the symbols of (i) are not only compared with the code at sample modes: Gen/LinOps.v is regenerated on every run by
+   harness/translate/linops.py from the source text of exponax/_spectral.py (build_laplace_operator,
+   build_gradient_inner_product_operator) and of EVERY `_build_linear_operator` under exponax/stepper (the translator fails if a
+   class defines one that it does not cover; only Wave is excluded, see C01_wave_exact), and the generated per-mode symbols equal
+   the hand-written ones for all coefficients, flags and derivative vectors d of any length (any number of spatial axes). *)
+Theorem C01_code_symbols_are_model_symbols : forall (F : FieldT) (d : list F),
+  (forall order, gen_build_laplace_operator F d order = laplace_sym F order d)
+  /\ (forall v order, gen_build_gradient_inner_product_operator F d v order = gip_sym F v order d)
+  /\ (forall v, gen_sym_advection F v d = sym_advection F v d)
+  /\ (forall A, gen_sym_diffusion F A d = sym_diffusion F A d)
+  /\ (forall v A, gen_sym_advection_diffusion F v A d = sym_advection_diffusion F v A d)
+  /\ (forall flag xi, gen_sym_dispersion F flag xi d = sym_dispersion F flag xi d)
+  /\ (forall flag mu, gen_sym_hyper_diffusion F flag mu d = sym_hyper_diffusion F flag mu d)
+  /\ (forall nu, gen_sym_burgers F nu d = sym_burgers F nu d)
+  /\ (forall f1 f2 nu xi mu, gen_sym_korteweg_de_vries F f1 f2 nu xi mu d = sym_kdv F f1 f2 nu xi mu d)
+  /\ (forall s2 s4, gen_sym_kuramoto_sivashinsky F s2 s4 d = sym_ks F s2 s4 d
+                   /\ gen_sym_kuramoto_sivashinsky_conservative F s2 s4 d = sym_ks F s2 s4 d)
+  /\ (forall nu drag, gen_sym_navier_stokes_vorticity F nu drag d = sym_navier_stokes F nu drag d
+                     /\ gen_sym_kolmogorov_flow_vorticity F nu drag d = sym_navier_stokes F nu drag d
+                     /\ gen_sym_navier_stokes_velocity F nu drag d = sym_navier_stokes F nu drag d
+                     /\ gen_sym_kolmogorov_flow_velocity F nu drag d = sym_navier_stokes F nu drag d)
+  /\ (forall a, gen_sym_general_linear F a d = poly_sym F a d
+               /\ gen_sym_general_convection F a d = poly_sym F a d
+               /\ gen_sym_general_gradient_norm F a d = poly_sym F a d
+               /\ gen_sym_general_vorticity_convection F a d = poly_sym F a d
+               /\ gen_sym_general_polynomial F a d = poly_sym F a d
+               /\ gen_sym_general_nonlinear F a d = poly_sym F a d)
+  /\ (forall nu c1, gen_sym_allen_cahn F nu c1 d = sym_allen_cahn F nu c1 d)
+  /\ (forall nu r, gen_sym_fisher_kpp F nu r d = sym_fisher F nu r d)
+  /\ (forall nu gam c1, gen_sym_cahn_hilliard F nu gam c1 d = sym_cahn_hilliard F nu gam c1 d)
+  /\ (forall nu1 nu2 ch, (ch < 2)%nat -> gen_sym_gray_scott F nu1 nu2 ch d = sym_gray_scott F nu1 nu2 ch d)
+  /\ (forall r kc, gen_sym_swift_hohenberg F r kc d = sym_swift_hohenberg F r kc d)
+  /\ (forall nus ch, (ch < 3)%nat -> gen_sym_belousov_zhabotinsky F nus ch d = sym_belousov_zhabotinsky F nus ch d).
+Proof.
+  intros F d. splits; intros.
+  - apply laplace_tie.
+  - apply gip_tie.
+  - apply advection_tie.
+  - apply diffusion_tie.
+  - apply advection_diffusion_tie.
+  - apply dispersion_tie.
+  - apply hyper_diffusion_tie.
+  - apply burgers_tie.
+  - apply kdv_tie.
+  - split; [apply ks_tie | apply ks_conservative_tie].
+  - apply navier_stokes_tie.
+  - apply general_tie.
+  - apply allen_cahn_tie.
+  - apply fisher_tie.
+  - apply cahn_hilliard_tie.
+  - apply gray_scott_tie; assumption.
+  - apply swift_hohenberg_tie.
+  - apply belousov_zhabotinsky_tie; assumption.
+Qed.
+Print Assumptions C01_code_symbols_are_model_symbols.
+
+(* the coefficients reach the symbol as the constructor argument of the same name, stored unchanged (checked by the translator),
+   except for the promotion of a scalar velocity / dispersivity to the constant vector and of a scalar / vector diffusivity to
+   the (constant) diagonal matrix, whose source text is translated as well (jnp.diag of a vector is modelled by diag_mat) *)
+Theorem C01_code_constructor_promotions_are_model_promotions : forall (F : FieldT) (c : F) (v d : list F),
+  gen_ctor_advection_velocity_scalar F c d = const_vec F c d
+  /\ gen_ctor_advection_diffusion_velocity_scalar F c d = const_vec F c d
+  /\ gen_ctor_dispersion_dispersivity_scalar F c d = const_vec F c d
+  /\ gen_ctor_diffusion_diffusivity_scalar F c d = diag_mat F (const_vec F c d)
+  /\ gen_ctor_advection_diffusion_diffusivity_scalar F c d = diag_mat F (const_vec F c d)
+  /\ gen_ctor_diffusion_diffusivity_vector F v = diag_mat F v
+  /\ gen_ctor_advection_diffusion_diffusivity_vector F v = diag_mat F v.
+Proof. intros. apply ctor_tie. Qed.
+Print Assumptions C01_code_constructor_promotions_are_model_promotions.
 
 (* non-vacuity: hypotheses are satisfiable, e.g. in the Gaussian rationals with a Pythagorean rotation *)
 From EXV Require Import Base.Cplx.
